@@ -1361,7 +1361,9 @@ func (p *Printer) command(cmd Command, redirs []*Redirect) (startRedirs int) {
 
 			p.nestedStmts(ci.Stmts, ci.Last, ci.OpPos)
 			p.level++
-			if !p.minify || i != len(cmd.Items)-1 {
+			// When minifying, the last ;; is redundant, unless the item is
+			// empty, as "a);esac" is invalid.
+			if !p.minify || i != len(cmd.Items)-1 || len(ci.Stmts) == 0 {
 				if p.wantsNewline(ci.OpPos, false) {
 					p.newlines(ci.OpPos)
 					p.wantNewline = true
